@@ -318,18 +318,25 @@ PPL::Polyhedron::relation_with(const Congruence& cg) const {
       && Poly_Con_Relation::is_included()
       && Poly_Con_Relation::is_disjoint();
   }
-  // Build the equality corresponding to the congruence (ignoring the modulus).
+  // The expression of the congruence (ignoring the modulus).
+  // Note: scalar products are computed on `expr' itself and not on the
+  // constraint `expr == 0', whose coefficients would be normalized.
   Linear_Expression expr(cg.expression());
-  const Constraint c(expr == 0);
 
   // The polyhedron is non-empty so that there exists a point.
   // For an arbitrary generator point, compute the scalar product with
   // the equality.
   PPL_DIRTY_TEMP_COEFFICIENT(sp_point);
+  // The scalar product with a point is scaled by the divisor of the point:
+  // the expression and the modulus have to be scaled accordingly.
+  PPL_DIRTY_TEMP_COEFFICIENT(modulus);
+  modulus = cg.modulus();
   for (Generator_System::const_iterator gs_i = gen_sys.begin(),
          gs_end = gen_sys.end(); gs_i != gs_end; ++gs_i) {
     if (gs_i->is_point()) {
-      Scalar_Products::assign(sp_point, c, *gs_i);
+      Scalar_Products::assign(sp_point, expr, gs_i->expr);
+      expr *= gs_i->divisor();
+      modulus *= gs_i->divisor();
       expr -= sp_point;
       break;
     }
@@ -342,7 +349,6 @@ PPL::Polyhedron::relation_with(const Congruence& cg) const {
   // corresponding to the hyperplanes to determine the result.
 
   // Compute the distance from the point to an hyperplane.
-  const Coefficient& modulus = cg.modulus();
   PPL_DIRTY_TEMP_COEFFICIENT(signed_distance);
   signed_distance = sp_point % modulus;
   if (signed_distance == 0) {
